@@ -190,7 +190,7 @@ def check_toys_exact(rng, shard, backend, ntoys):
                                                     {"name": "bkg", "data": bs, "modifiers": []}]}]}
     model = pyhf.Model(spec, poi_name="mu")
     mu = rng.choice([0.8, 1.0, 1.5, 2.0])
-    ts = rng.choice(["qtilde", "qtilde", "q0"])
+    ts = rng.choice(["qtilde", "qtilde", "q0", "q"])
     obs = [float(gen.poisson_draw(rng, b + (0.3 if ts != "q0" else 1.2) * s)) for s, b in zip(ss, bs)]
     mu_eff = 0.0 if ts == "q0" else mu
     seed = rng.randrange(1 << 30)
@@ -321,7 +321,7 @@ def check_toy_hypotheses(rng, shard, backend):
 
     model = pyhf.simplemodels.uncorrelated_background([round(rng.uniform(3, 8), 1)], [round(rng.uniform(20, 60), 1)], [round(rng.uniform(3, 8), 1)])
     data = [float(gen.poisson_draw(rng, 50))] + list(model.config.auxdata)
-    ts = rng.choice(["qtilde", "q0"])
+    ts = rng.choice(["qtilde", "q0", "q"])
     mu = 0.0 if ts == "q0" else rng.choice([0.5, 1.0, 2.0])
     # half of the time the caller fixes the nuisance parameter at a non-default value
     user_fixed = rng.random() < 0.5
